@@ -72,7 +72,7 @@ Capture(g, open, first, last, any, allws) ==
                     ELSE [g |-> g + 1, tok |-> t, push |-> <<>>, clear |-> TRUE, error |-> ""]                         \* empty: the closer itself
                ELSE IF t.ty = "OP" /\ t.s = ","
                THEN IF any THEN [g |-> g + 1, tok |-> [ty |-> IF allws THEN "WS" ELSE "MACRO_PARAM", s |-> "", b |-> first, e |-> last], push |-> <<>>, clear |-> FALSE, error |-> ""]
-                    ELSE [g |-> g + 1, tok |-> t, push |-> <<>>, clear |-> FALSE, error |-> ""]                        \* delimiter with nothing before it
+                    ELSE [g |-> g + 1, tok |-> t, push |-> <<>>, clear |-> FALSE, error |-> "", bare |-> TRUE]         \* delimiter with nothing before it
                ELSE Capture(g + 1, open1, IF any THEN first ELSE t.b, t.e, TRUE, allws /\ t.ty = "WS")
 
 \* ---- peek(): fill the cache until index < Len(cache) -------------------------------------
@@ -85,8 +85,13 @@ Fill(g, c, st, cm, steps) ==
             IF r.error # "" THEN [g |-> r.g, c |-> c, st |-> st, cm |-> cm, error |-> r.error]
             ELSE LET st1 == IF r.push # <<>> THEN Append(st, r.push) ELSE st
                      cm1 == cm /\ ~r.clear
+                     \* "if (not string) and self._stack: return self._stack.pop()": a bare delimiter is dropped in favour of
+                     \* whatever is still on the push-back stack (as the code does)
+                     stale == "bare" \in DOMAIN r /\ st1 # <<>>
+                     tok == IF stale THEN st1[Len(st1)] ELSE r.tok
+                     st2 == IF stale THEN SubSeq(st1, 1, Len(st1) - 1) ELSE st1
                      \* a whitespace-only argument comes back as WS and is filtered like any blank
-                 IN Fill(r.g, IF Blank(r.tok, c) THEN c ELSE Append(c, r.tok), st1, cm1, steps - 1)
+                 IN Fill(r.g, IF Blank(tok, c) THEN c ELSE Append(c, tok), st2, cm1, steps - 1)
        ELSE IF st # <<>>
             THEN LET t == st[Len(st)] IN Fill(g, IF Blank(t, c) THEN c ELSE Append(c, t), SubSeq(st, 1, Len(st) - 1), cm, steps - 1)
             ELSE IF g >= Len(Raw) THEN [g |-> g, c |-> c, st |-> st, cm |-> cm, error |-> "SyntaxError"]
